@@ -19,6 +19,23 @@ package hrw
 //@   ensures swapped: a.nodes[i] == old(a.nodes[j]) && a.nodes[j] == old(a.nodes[i])
 //@   ensures others: forall k int :: 0 <= k && k < len(a.nodes) && k != i && k != j ==> a.nodes[k] == old(a.nodes[k])
 
+// ---- ordering (property C22) ----------------------------------------------------------------------
+//
+// scoreOf(node, key) is the node's score for a key: an uninterpreted float-valued function (the real
+// one hashes key and label with murmur3 and scales by the weight). Less compares scores; the
+// generator's order on floats is the uninterpreted relation float_lt (no axioms: what is proved about
+// the sorted list is exactly what sort.Sort guarantees for any Less).
+//@ specfunc scoreOf(n *RendezvousHashNode, key string) float64
+
+// Assumed: Score is a function of the node and the key.
+//@ func RendezvousHashNode.Score
+//@   trusted
+//@   ensures result == scoreOf(rhn, key)
+
+//@ func RendezvousNodesByScore.Less
+//@   requires 0 <= i && i < len(a.nodes) && 0 <= j && j < len(a.nodes) && a.nodes[i] != nil && a.nodes[j] != nil
+//@   ensures order: result <==> float_lt(scoreOf(a.nodes[i], a.key), scoreOf(a.nodes[j], a.key))
+
 // AddNode appends a fresh node with the given label and weight; earlier nodes keep their place.
 //@ func RendezvousHash.AddNode
 //@   requires rh != nil
@@ -36,9 +53,26 @@ package hrw
 //@   ensures drawn: forall i int :: 0 <= i && i < len(result) ==> (exists j int :: 0 <= j && j < len(rh.Nodes) && result[i] == rh.Nodes[j])
 //@   ensures injective: forall i int, k int :: 0 <= i && i < k && k < len(result) && (forall a int, b int :: 0 <= a && a < b && b < len(rh.Nodes) ==> rh.Nodes[a] != rh.Nodes[b]) ==> result[i] != result[k]
 //@   ensures complete: n >= len(rh.Nodes) ==> (forall j int :: 0 <= j && j < len(rh.Nodes) ==> (exists i int :: 0 <= i && i < len(result) && result[i] == rh.Nodes[j]))
+//@   ensures descending: forall i int, j int :: 0 <= i && i < j && j < len(result) ==> !float_lt(scoreOf(result[i], key), scoreOf(result[j], key))
 //@   ensures isfresh: fresh(result)
 //@   ensures unchanged: len(rh.Nodes) == old(len(rh.Nodes)) && (forall j int :: 0 <= j && j < len(rh.Nodes) ==> rh.Nodes[j] == old(rh.Nodes[j]))
 
 // A new hash has no nodes.
 //@ func NewRendezvousHash
 //@   ensures result != nil && fresh(result) && len(result.Nodes) == 0
+
+// GetNode returns the first node with the label and its index, or (nil, -1).
+//@ func RendezvousHash.GetNode
+//@   requires rh != nil && (forall i int :: 0 <= i && i < len(rh.Nodes) ==> rh.Nodes[i] != nil)
+//@   ensures absent: result1 == 0 - 1 ==> result0 == nil && (forall i int :: 0 <= i && i < len(rh.Nodes) ==> rh.Nodes[i].Label != name)
+//@   ensures found: result1 != 0 - 1 ==> 0 <= result1 && result1 < len(rh.Nodes) && result0 == rh.Nodes[result1] && result0.Label == name && (forall i int :: 0 <= i && i < result1 ==> rh.Nodes[i].Label != name)
+//@   loop 0 invariant idx: 0 - 1 <= rangeindex && rangeindex < len(rh.Nodes) && (forall i int :: 0 <= i && i <= rangeindex ==> rh.Nodes[i].Label != name)
+
+// RemoveNode removes the first node with the label and nothing else: the nodes before it keep their
+// positions, the nodes after it move up by one (relative order unchanged); no such node, no change.
+//@ func RendezvousHash.RemoveNode
+//@   requires rh != nil && (forall i int :: 0 <= i && i < len(rh.Nodes) ==> rh.Nodes[i] != nil)
+//@   modifies rh.Nodes, mem rh.Nodes
+//@   ensures absent: (forall i int :: 0 <= i && i < old(len(rh.Nodes)) ==> old(rh.Nodes[i]).Label != name) ==> len(rh.Nodes) == old(len(rh.Nodes)) && (forall i int :: 0 <= i && i < len(rh.Nodes) ==> rh.Nodes[i] == old(rh.Nodes[i]))
+//@   ensures removed: forall k int :: 0 <= k && k < old(len(rh.Nodes)) && old(rh.Nodes[k]).Label == name && (forall j int :: 0 <= j && j < k ==> old(rh.Nodes[j]).Label != name) ==> len(rh.Nodes) == old(len(rh.Nodes)) - 1 && (forall j int :: 0 <= j && j < k ==> rh.Nodes[j] == old(rh.Nodes[j])) && (forall j int :: k <= j && j < len(rh.Nodes) ==> rh.Nodes[j] == old(rh.Nodes[j + 1]))
+//@   loop 0 invariant idx: 0 - 1 <= rangeindex && rangeindex < old(len(rh.Nodes)) && len(rh.Nodes) == old(len(rh.Nodes)) && (forall i int :: 0 <= i && i < len(rh.Nodes) ==> rh.Nodes[i] == old(rh.Nodes[i])) && (forall i int :: 0 <= i && i <= rangeindex ==> old(rh.Nodes[i]).Label != name)
